@@ -1355,14 +1355,22 @@ class Interp:
             if len(args) == 2 and isinstance(args[1], SymObj):
                 return SuperProxy(args[0], args[1])
             raise Unsupported("super() form")
-        if f is bytearray:
+        if f is bytearray or (f is bytes and args and isinstance(args[0], list) and has_sym(args[0])):
+            # bytearray / bytes are modelled as python lists of byte terms; an element outside 0..255
+            # would raise ValueError in the real constructor -> side condition
             if not args:
                 return []
             if isinstance(args[0], int) and not isinstance(args[0], bool):
                 return [0] * args[0]
             if is_sym(args[0]):
-                raise Unsupported("bytearray(symbolic int)")
-            return list(args[0])
+                raise Unsupported("%s(symbolic int)" % f.__name__)
+            out = list(args[0])
+            for x in out:
+                if is_sym(x) and not z3.is_bool(x):
+                    if not z3.is_bv(x) and not z3.is_int(x):
+                        raise Unsupported("%s() of non-integer elements" % f.__name__)
+                    self.add_side("%s() element outside 0..255 (ValueError)" % f.__name__, z3.And(x >= 0, x <= 255))
+            return out
         if f in (list, tuple) and args and isinstance(args[0], (list, tuple)):
             return f(args[0])
         if f is list and not args:
